@@ -42,6 +42,11 @@ TEXT = {
         "level_text": "Generated proofreading histories on a small labelmap (12 blocks of 16^3, also at negative block coordinates): after every mutation the server's stored voxels and mapping must equal the reference model, every read endpoint must equal what scanning the server's own stored voxels under its own mapping yields, and every other version must still read as its own history says (no pre-reads, so versions are first loaded in arbitrary order). Exploration of op sequences x label layouts x DAG shapes the example tests cannot reach.",
         "level_note": "<=19 ops, <=10 palette supervoxels, one block size (16^3), extent 3x2x2 blocks; split volumes are proper subsets; 'split' (body split) endpoint not exercised (disabled by default configuration); maxlabel/nextlabel belong to C12.",
     },
+    "C03": {
+        "technique": "property-based testing (rapid): stateful histories against a real server process with restart pseudo-ops; metamorphic oracle before-restart snapshot == after-restart snapshot over every observable",
+        "level_text": "Generated multi-datatype histories run in a child process that performs the DoServe initialisation on real Badger/file-log/mutation-log stores; at generated points the process is shut down cleanly or SIGKILLed while idle and a new process is started on the same directories; the complete observable state (repos, DAG, flags, notes, logs, branch resolution, instance settings, every read endpoint of every instance at every version) must be identical. Only a fresh process sees state rebuilt from disk, which the in-process reopen helper cannot show.",
+        "level_note": "<=~35 ops and <=5 restarts per history; labelmap extent 2x2x2 blocks of 16^3; set-valued answers (supervoxel lists, field names, element lists, block streams) are compared order-independently; crash = SIGKILL of an idle process (no power-loss semantics).",
+    },
 }
 
 
